@@ -114,6 +114,7 @@ func applyModel(m *ea.Model, ev string) bool {
 		m.Checkpoint = m.Chain[i].Name
 	case "Rebuild":
 		m.Rebuilding = f[1] == "t"
+	case "SetLog": // log.info only: the volume model is untouched
 	case "MakeClone":
 		// the directory becomes that of a CLONE replica in the middle of its clone: a fresh replica marked rebuilding
 		// into which the source's snapshot files base … member i have been copied (they are outside its chain until
